@@ -27,8 +27,9 @@ type Case struct {
 
 var delimRe = regexp.MustCompile(`^ ?(:?)-{3,}(:?) ?$`)
 
-// entities the escaper may produce
-var okEntities = []string{"&amp;", "&lt;", "&gt;", "&#34;", "&#39;", "&#x7c;", "&#x0a;", "&quot;", "&apos;", "&#124;", "&#10;", "&#x7C;", "&#x0A;", "&#xa;", "&#xA;"}
+// an ampersand in the output must start a well-formed character reference (whichever form the escaper prefers);
+// that the reference decodes to the right thing is checked by the decode-and-compare step
+var entityRe = regexp.MustCompile(`^&(?:[A-Za-z][A-Za-z0-9]*|#[0-9]+|#[xX][0-9A-Fa-f]+);`)
 
 // splitPipes splits on pipes that are not preceded by an odd run of backslashes.
 func splitPipes(line string) (parts []string, escapedPipes int) {
@@ -160,14 +161,8 @@ func CheckCase(c Case) *ev.Violation {
 		}
 		for i := 0; i < len(line); i++ {
 			if line[i] == '&' {
-				ok := false
-				for _, e := range okEntities {
-					if strings.HasPrefix(line[i:], e) {
-						ok = true
-					}
-				}
-				if !ok {
-					return ev.V("line %d has an ampersand that does not start an escape the renderer produces: %q\n%s", li, line[i:min(len(line), i+8)], out)
+				if !entityRe.MatchString(line[i:]) {
+					return ev.V("line %d has an ampersand that does not start a character reference: %q\n%s", li, line[i:min(len(line), i+8)], out)
 				}
 			}
 		}
